@@ -15,13 +15,16 @@ fn noop_waker() -> Waker {
 }
 
 #[derive(Default)]
-struct Flags { fail_read: AtomicBool, fail_write: AtomicBool, dropped: AtomicBool, budget: std::sync::atomic::AtomicIsize, waker: std::sync::Mutex<Option<Waker>> }
+struct Flags { fail_read: AtomicBool, fail_write: AtomicBool, dropped: AtomicBool, budget: std::sync::atomic::AtomicIsize, waker: std::sync::Mutex<Option<Waker>>, read_waker: std::sync::Mutex<Option<Waker>> }
 struct Faulty { inner: DuplexStream, flags: Arc<Flags> }
 impl Drop for Faulty { fn drop(&mut self) { self.flags.dropped.store(true, Ordering::SeqCst); } }
 impl AsyncRead for Faulty {
     fn poll_read(mut self: Pin<&mut Self>, cx: &mut Context<'_>, buf: &mut ReadBuf<'_>) -> Poll<io::Result<()>> {
         if self.flags.fail_read.load(Ordering::SeqCst) { return Poll::Ready(Err(io::ErrorKind::ConnectionReset.into())); }
-        Pin::new(&mut self.inner).poll_read(cx, buf)
+        let r = Pin::new(&mut self.inner).poll_read(cx, buf);
+        // (an error on a real socket wakes a pending reader: the waker is kept so that the injected read error can do the same)
+        if r.is_pending() { *self.flags.read_waker.lock().unwrap() = Some(cx.waker().clone()); }
+        r
     }
 }
 impl AsyncWrite for Faulty {
@@ -44,7 +47,7 @@ struct Server {
     buf: Vec<u8>, idle: bool, pending: Vec<Vec<u8>>, lines: Vec<Vec<u8>>, violations: Vec<String>, changed: Vec<Vec<u8>>, in_list: Option<Vec<Vec<u8>>>,
     outbox: VecDeque<u8>, password: String, closed: bool, multi_changed: bool,
     art: Option<(Vec<u8>, usize, usize, bool)>, art_requests: Vec<Vec<u8>>, known: Option<Vec<Vec<u8>>>,
-    art_limit2: usize, art_cutlf: bool, barriers: Vec<usize>, sent_total: usize, ack_next_idle: bool, idle_acked: bool,
+    art_limit2: usize, art_cutlf: bool, art_late_err: bool, barriers: Vec<usize>, sent_total: usize, ack_next_idle: bool, idle_acked: bool,
 }
 impl Server {
     fn send(&mut self, d: &[u8]) { self.outbox.extend(d.iter().copied()); self.sent_total += d.len(); }
@@ -97,6 +100,7 @@ impl Server {
                 self.art_requests.push(line.clone());
                 let off: usize = String::from_utf8_lossy(parts[parts.len() - 1]).parse().unwrap();
                 let embedded = parts[0] == b"readpicture";
+                if self.art_late_err && off > 0 { self.send(format!("ACK [50@0] {{{}}} No such file\n", String::from_utf8_lossy(parts[0])).as_bytes()); return; }
                 let source = if parts[1] == b"song" { source } else { 3 };
                 // source: 0 embedded, 1 file (readpicture empty), 2 file (readpicture ACK 5), 3 nothing, 4 readpicture ACK 52
                 if embedded {
@@ -181,6 +185,7 @@ pub fn client(a: &[String]) {
             server.borrow_mut().art = Some((pic, p[1].parse().unwrap(), p[2].parse().unwrap(), p[3] == "1"));
             server.borrow_mut().art_limit2 = p.get(4).map(|x| x.parse().unwrap()).unwrap_or(0);
             server.borrow_mut().art_cutlf = p.get(5).map(|x| *x == "1").unwrap_or(false);
+            server.borrow_mut().art_late_err = p.get(6).map(|x| *x == "1").unwrap_or(false);
         }
         {
             let mut k: Vec<Vec<u8>> = vec![b"command_list_ok_begin".to_vec(), b"command_list_end".to_vec()];
@@ -284,7 +289,7 @@ pub fn client(a: &[String]) {
             else if st == "unblock" { flags.budget.store(-1, Ordering::SeqCst); if let Some(w) = flags.waker.lock().unwrap().take() { w.wake(); } }
             else if st == "dropclient" { if !clients.is_empty() { clients.remove(0); } }
             else if st == "fault:eof" { if let Some(mut w) = srv_w.take() { let _ = w.shutdown().await; } }
-            else if st == "fault:read_error" { flags.fail_read.store(true, Ordering::SeqCst); }
+            else if st == "fault:read_error" { flags.fail_read.store(true, Ordering::SeqCst); if let Some(w) = flags.read_waker.lock().unwrap().take() { w.wake(); } }
             else if st == "fault:write_error" { flags.fail_write.store(true, Ordering::SeqCst); }
             else if st == "fault:garbage" { if let Some(w) = srv_w.as_mut() { let _ = w.write_all(b"\x01 junk\n").await; } }
             else { panic!("step {st}"); }
